@@ -176,6 +176,10 @@ def generate(seed, tier):
         else:
             t = G.rand_tree(r, r.randint(1, 3 if quick else 6), widths=(0, 1, 2, 3, 4), maxlen=r.choice([8, 40, 600]), leaf=leaf, unstable_keys=True)
         yield "storeval itsession 0 %s" % " ".join(G.value_tokens(t))
+    for i in range(120 if quick else 2000):
+        # the item in a save frame nested in a save frame (the walker gets there through all_frames twice)
+        t = leaf(r) if r.random() < 0.4 else G.rand_tree(r, r.randint(1, 3), widths=(0, 1, 2, 3), maxlen=r.choice([8, 40]), leaf=leaf, unstable_keys=True)
+        yield "storeval frameset %d %s" % (r.randint(0, 2), " ".join(G.value_tokens(t)))
     for i in range(1500 if quick else 25000):
         mode = r.random()
         if mode < 0.3:
